@@ -15,6 +15,9 @@ import (
 	"golang.org/x/tools/go/ssa"
 )
 
+// bseqType is the pseudo Go type of spec-level byte sequences (SMT sort BSeq).
+var bseqType = types.NewNamed(types.NewTypeName(0, nil, "bseq", nil), types.Typ[types.Int], nil)
+
 type ghostMap struct {
 	KeySort string
 	Elem    types.Type
@@ -205,6 +208,8 @@ func (e *Engine) resolveType0(pkg *types.Package, text string) types.Type {
 		return types.NewStruct(nil, nil)
 	case text == "error":
 		return types.Universe.Lookup("error").Type()
+	case text == "bseq":
+		return bseqType
 	}
 	if obj := types.Universe.Lookup(text); obj != nil {
 		if tn, ok := obj.(*types.TypeName); ok {
@@ -305,7 +310,7 @@ func (e *Engine) ghostMapInfoOfType(x *Exec, t types.Type) *ghostMap {
 	if t == nil {
 		return nil
 	}
-	if mt, ok := types.Unalias(t).Underlying().(*types.Map); ok {
+	if mt, ok := under(t).(*types.Map); ok {
 		return &ghostMap{KeySort: x.so.sortOf(mt.Key()), Elem: mt.Elem()}
 	}
 	return nil
@@ -335,7 +340,7 @@ func (e *Engine) assignKeys(x *Exec, fc *FuncContract) ([]string, bool) {
 			}
 			// expr.field: need the static type of expr; resolve through the function signature
 			if ty := e.staticTypeOf(x, fc, t.X); ty != nil {
-				if pt, ok := types.Unalias(ty).Underlying().(*types.Pointer); ok {
+				if pt, ok := under(ty).(*types.Pointer); ok {
 					if si := x.so.structOf(pt.Elem()); si != nil {
 						found := false
 						for i, f := range si.Fields {
@@ -359,7 +364,7 @@ func (e *Engine) assignKeys(x *Exec, fc *FuncContract) ([]string, bool) {
 			all = true
 		case *CUn:
 			if ty := e.staticTypeOf(x, fc, t.X); ty != nil {
-				if pt, ok := types.Unalias(ty).Underlying().(*types.Pointer); ok {
+				if pt, ok := under(ty).(*types.Pointer); ok {
 					if si := x.so.structOf(pt.Elem()); si != nil {
 						for i := range si.Fields {
 							k, _ := x.fieldKey(si, i)
@@ -376,7 +381,7 @@ func (e *Engine) assignKeys(x *Exec, fc *FuncContract) ([]string, bool) {
 		case *CCall:
 			if id, ok := t.Fun.(*CIdent); ok && id.Name == "elems" {
 				if ty := e.staticTypeOf(x, fc, t.Args[0]); ty != nil {
-					if slt, ok := types.Unalias(ty).Underlying().(*types.Slice); ok {
+					if slt, ok := under(ty).(*types.Slice); ok {
 						k, _ := x.elemKey(slt.Elem())
 						keys = append(keys, k)
 						continue
@@ -436,9 +441,9 @@ func (e *Engine) staticTypeOf(x *Exec, fc *FuncContract, ex CExpr) types.Type {
 			if bt == nil {
 				return nil
 			}
-			u := types.Unalias(bt).Underlying()
+			u := under(bt)
 			if pt, ok := u.(*types.Pointer); ok {
-				u = types.Unalias(pt.Elem()).Underlying()
+				u = under(pt.Elem())
 			}
 			if st, ok := u.(*types.Struct); ok {
 				for i := 0; i < st.NumFields(); i++ {
@@ -722,7 +727,7 @@ func (e *Engine) specAxioms(x *Exec, sd *SpecDecl) {
 			pt := e.resolveType(pk, p.Type)
 			x.qn++
 			n := fmt.Sprintf("%s_a%d", p.Name, x.qn)
-			if slt, ok := types.Unalias(pt).Underlying().(*types.Slice); ok {
+			if slt, ok := under(pt).(*types.Slice); ok {
 				key, srt := x.elemKey(slt.Elem())
 				es := x.so.sortOf(slt.Elem())
 				arr, off, ln := n+"_arr", n+"_off", n+"_len"
